@@ -368,6 +368,37 @@ func lawKinds(w *world, l, r int) string {
 }
 
 
+// misjudged names the kind of the operand whose truthiness, if taken the other way round, explains
+// a wrong && / || result (non-boolean operands first), so that one broken truthiness rule is one key.
+func misjudged(op string, a, b exprsem.V, out string) string {
+	ta, _ := exprsem.Truth(a)
+	tb, _ := exprsem.Truth(b)
+	got := out == "b:1"
+	if out != "b:1" && out != "b:0" {
+		return a.K.String() + "," + b.K.String()
+	}
+	eval := func(x, y bool) bool {
+		if op == "&&" {
+			return x && y
+		}
+		return x || y
+	}
+	type cand struct {
+		k    exprsem.Kind
+		x, y bool
+	}
+	cs := []cand{{a.K, !ta, tb}, {b.K, ta, !tb}}
+	if a.K == exprsem.KBool || a.K == exprsem.KNull {
+		cs[0], cs[1] = cs[1], cs[0]
+	}
+	for _, c := range cs {
+		if eval(c.x, c.y) == got {
+			return c.k.String()
+		}
+	}
+	return a.K.String() + "," + b.K.String()
+}
+
 // zeroSign: the compound law ignores the sign of a float zero (storing 0.0 over -0.0 is an
 // assignment matter, not an operator one).
 func zeroSign(o string) string {
@@ -599,11 +630,23 @@ func (s *workerState) binShard() {
 					key = "hang:" + opFamily[op] + ":" + kinds(w, l, r)
 				default:
 					key = "value:" + opFamily[op] + ":" + kindsFor(w, op, l, r)
+					if op == "&&" || op == "||" {
+						key = "value:logical:" + misjudged(op, w.pool[l].V, w.pool[r].V, o)
+					}
 				}
 				k := cl + "\x00" + key
 				byKey[k] = append(byKey[k], f)
 				if detail[k] == "" {
 					detail[k] = fmt.Sprintf("%s %s %s (%s form) %s; the statement allows: %s [%s]", w.pool[l].Name, op, w.pool[r].Name, f, why, exp.String(), exp.Why)
+				}
+				if cl == "crash" && !exp.Open {
+					// inside the documented domain a crash is also a wrong result of that table cell; the
+					// cell key keeps a new crash from hiding behind a listed crash of the same node
+					k2 := "value\x00value:" + opFamily[op] + ":" + kindsFor(w, op, l, r)
+					byKey[k2] = append(byKey[k2], f)
+					if detail[k2] == "" {
+						detail[k2] = detail[k]
+					}
 				}
 			}
 			for k, fs := range byKey {
@@ -685,6 +728,10 @@ func (s *workerState) binShard() {
 					fmt.Sprintf("%s <=> %s is %s while %s < %s is %s and %s > %s is %s ('<=> agrees with < and >')", w.pool[l].Name, w.pool[r].Name, sp, w.pool[l].Name, w.pool[r].Name, lt, w.pool[l].Name, w.pool[r].Name, gt))
 			}
 		}
+	}
+	if l == 1 && s.arg.Group == 3 {
+		o, _ := get("%", "var", 0)
+		s.pw.Emit(rec{Kind: "sample", Sample: map[string]any{"script": script("%", "var", 0), "expected": exprsem.BinRef("%", w.pool[l].V, w.pool[0].V).String(), "observed": o}})
 	}
 	if l == 1 && s.arg.Group == 2 {
 		o, _ := get("+", "var", 3)
@@ -960,7 +1007,10 @@ func main() {
 	if exactN < 1000 {
 		c.HarnessError("vacuous: only %d cells had an exact expectation", exactN)
 	}
-	c.Finish(int64(len(shards)), total, total, fmt.Sprintf("complete table: %d binary operators x %d^2 ordered operand pairs x 4 operand forms + compound assignment + swapped ==; %d prefix operators x pool x forms; %d boolean contexts x pool x forms; states = table rows (shards), distinct = outcome classes", len(binOps), len(w.pool), len(unOps), len(contexts)))
+	n := int64(len(w.pool))
+	cells := int64(len(binOps))*n*n + int64(len(unOps))*n + n
+	c.Set("table_cells", cells)
+	c.Finish(cells, total, total, fmt.Sprintf("complete table: %d binary operators x %d^2 ordered operand pairs x 4 operand forms + compound assignment + swapped ==; %d prefix operators x pool x forms; %d boolean contexts x pool x forms; states = table cells (operator x operand tuple), executions = cases run (cells x operand forms, contexts)", len(binOps), len(w.pool), len(unOps), len(contexts)))
 }
 
 // formAgg decides the ":form=" suffix of form-aggregated keys: none if the finding occurs in all
